@@ -188,6 +188,46 @@ def r_log(text):
     return text, n
 
 
+def r_slice_to_array(text):
+    """R2c (opt-in): RECV.try_into().unwrap() on a slice -> vq_slice_to_array(&RECV).
+    Slice-to-array TryInto (TryFromSliceError) is not supported by Verus; the
+    shim `requires s.len() == N` (the unwrap panics exactly otherwise) and
+    ensures the array has the slice's octets."""
+    n = 0
+    while True:
+        masked = rustscan.mask(text)
+        m = re.search(r'\.\s*try_into\s*\(\s*\)\s*\.\s*unwrap\s*\(\s*\)', masked)
+        if not m:
+            break
+        # receiver: scan back to the start of the postfix expression
+        k = m.start() - 1
+        depth = 0
+        while k >= 0:
+            ch = masked[k]
+            if ch in ')]}':
+                depth += 1
+            elif ch in '([{':
+                if depth == 0:
+                    break
+                depth -= 1
+            elif depth == 0 and (ch in ',;=' or (ch == '>' and masked[k - 1] == '=')):
+                break
+            k -= 1
+        recv_start = k + 1
+        recv = text[recv_start:m.start()]
+        lead = len(recv) - len(recv.lstrip())
+        rep = recv[:lead] + 'vq_slice_to_array(&' + recv.strip() + ')'
+        text = _replace_spans(text, [(recv_start, m.end(), rep)])
+        n += 1
+    return text, n
+
+
+def r_eta_variant(text):
+    """R10 (opt-in): `.map_err(Path::Variant)` -> `.map_err(|e| Path::Variant(e))`
+    (eta-expansion; Verus does not accept a datatype constructor as a function value)."""
+    return re.subn(r'\.map_err\(\s*((?:\w+::)+[A-Z]\w*)\s*\)', r'.map_err(|e| \1(e))', text)
+
+
 def r_const_fn(text):
     """R1b (signature only): drop `const` from `const fn` (Verus exec fns need
     not be const; constness is not behaviour)."""
@@ -201,6 +241,8 @@ RULES = {
     'R3c': r_expect,
     'R4': r_matches,
     'R7a': r_log,
+    'R2c': r_slice_to_array,
+    'R10': r_eta_variant,
 }
 
 # Parametrised rules (id -> (regex, replacement, doc)); selected per unit with
